@@ -52,6 +52,11 @@ pub fn solve_real_lp_problem_clarabel(lp: &LinearModel) -> Result<LpSolution<f64
             got: invalid_variables,
         });
     }
+    // Clarabel cannot factorise an empty system, a variable-free model is
+    // decided by its constant rows alone.
+    if let Some(result) = super::common::solve_variable_free_model(lp) {
+        return result;
+    }
     solve_with_good_lp(
         lp,
         ::good_lp::clarabel,
